@@ -17,12 +17,14 @@ CONFIGS = {
     "C01": {"quick": ["GenG1_bytes_q.cfg", "GenG1_cfg_ia32_q.cfg"], "thorough": ["GenG1_bytes_t.cfg", "GenG1_bytes_arm64.cfg", "GenG1_cfg_ia32_q.cfg"]},
     "C02": {"quick": ["GenG1_syms_q.cfg", "GenG1_cfg_arm64_q.cfg", "GenG1_alias_q.cfg"],
             "thorough": ["GenG1_syms_t.cfg", "GenG1_syms_arm64.cfg", "GenG1_cfg_ia32_q.cfg", "GenG1_alias_q.cfg"]},
-    "C04": {"quick": ["GenG1_ann_q.cfg", "GenG1_cfi_q.cfg"], "thorough": ["GenG1_ann_t.cfg", "GenG1_cfi_t.cfg"]},
+    "C04": {"quick": ["GenG1_ann_q.cfg", "GenG1_cfi_q.cfg", "GenG1_cfimid_q.cfg"],
+            "thorough": ["GenG1_ann_t.cfg", "GenG1_cfi_t.cfg", "GenG1_cfimid_q.cfg"]},
     "C06": {"quick": ["GenG1_fn_q.cfg", "GenG1_fndel_q.cfg"], "thorough": ["GenG1_fn_t.cfg", "GenG1_fndel_q.cfg"]},
     "C03": {"quick": ["GenG1_cfg_q.cfg", "GenG1_calls_q.cfg", "GenG1_calls2_q.cfg", "GenG1_cfg_arm64_q.cfg"],
             "thorough": ["GenG1_cfg_t.cfg", "GenG1_cfg_arm64.cfg", "GenG1_calls_q.cfg", "GenG1_calls2_q.cfg",
                          "GenG1_cfg_ia32_q.cfg"]},
-    "C08": {"quick": ["GenG1_cfi_q.cfg", "GenG1_cfi3_q.cfg"], "thorough": ["GenG1_cfi_t.cfg", "GenG1_cfi3_q.cfg"]},
+    "C08": {"quick": ["GenG1_cfi_q.cfg", "GenG1_cfi3_q.cfg", "GenG1_cfimid_q.cfg"],
+            "thorough": ["GenG1_cfi_t.cfg", "GenG1_cfi3_q.cfg", "GenG1_cfimid_q.cfg"]},
     "C09": {"quick": ["GenG1_batch_q.cfg", "GenG1_calls2_q.cfg", "GenG1_alias_q.cfg"],
             "thorough": ["GenG1_batch_t.cfg", "GenG1_cfg_q.cfg", "GenG1_calls_q.cfg", "GenG1_calls2_q.cfg",
                          "GenG1_alias_q.cfg"]},
